@@ -9,6 +9,10 @@
 (***************************************************************************)
 EXTENDS Cache, TLC
 
+(* keys of the model: k1 is closed, k2 has a free variable of an unrestricted quantifier, k3 one whose         *)
+(* quantifier ranges over the domain "d"; w is a wild-card                                                     *)
+MCKeyDom(k) == CASE k = "k1" -> "closed" [] k = "k2" -> "" [] k = "k3" -> "d" [] OTHER -> "closed"
+
 VARIABLES d0, c0
 vars == <<cvars, d0, c0>>
 
@@ -23,7 +27,9 @@ Init ==
   /\ CacheInit(d0, c0)
 
 Next ==
-  /\ \E k \in Keys : Hit(k) \/ Save(k) \/ Shortcut(k) \/ \E s \in BOOLEAN : Miss(k, s)
+  /\ \/ \E k \in Keys : Hit(k) \/ Save(k) \/ Shortcut(k) \/ \E s \in BOOLEAN : Miss(k, s)
+     \/ \E v \in {"x", "xx"}, d \in {"", "d", "e"} : Open(v, d)
+     \/ \E v \in {"x", "xx"} : Close(v)
   /\ UNCHANGED <<d0, c0>>
 Spec == Init /\ [][Next]_vars
 
@@ -36,4 +42,5 @@ Inv ==
   /\ WildKept(c0)
   /\ CachedWasSaved(c0)
   /\ StackDistinct
+  /\ StoredValuesPortable
 =============================================================================
